@@ -574,6 +574,7 @@ class ProgGen(object):
         self.reflexive_using_done = False
         self.else_ctl_done = False
         self.loop_where_done = False
+        self.related_where_done = False
         self.budget = max_stmts
         self.max_depth = max_depth
         self.params = list(params)            # [(name, ty)]
@@ -1088,6 +1089,9 @@ class ProgGen(object):
             choices += [('else_ctl', 4)]
         if depth < self.max_depth and not self.loop_where_done:
             choices += [('loop_where', 5)]
+        if self.loop_depth == 0 and self.assoc and self.allow_mutation and self.create_in_loops and not self.related_where_done \
+                and any(e[4] for e in self.edges):
+            choices += [('related_where', 5)]
         if self.loop_depth == 0 and self.allow_mutation and self.create_in_loops and self.classes is CLASS_ATTRS \
                 and not self.reflexive_using_done:
             choices += [('reflexive_using', 4)]
@@ -1834,6 +1838,37 @@ class ProgGen(object):
         self.declare(S, V('set', cls, dead=(mode != 'create')))
         self.declare(S2, V('set', cls))
         for n in (c0, cin, c1, c2, k):
+            self.declare(n, V('integer'))
+        return out
+
+    def st_related_where(self, depth):
+        """`select any / one ... related by ... where` along a link that reaches SEVERAL instances, with a clause that the
+        first instance reached does not satisfy while a later one does: the result is the first instance that SATISFIES
+        the clause (not "the first instance, if it satisfies it")"""
+        r = self.rng
+        self.related_where_done = True
+        frm, to, rel, ph, _ = r.choice([e for e in self.edges if e[4] and e[0] != e[1] and (e[1], e[0], e[2], e[3], False) in self.edges]
+                                       or [e for e in self.edges if e[4]])
+        x = self.fresh(frm.lower())
+        ys = [self.fresh(to.lower()) for _ in range(3)]
+        base = r.choice([100, 200, 300])
+        out = [['create', x, frm]]
+        for j, y in enumerate(ys):
+            out += [['create', y, to], ['setattr', ['var', y], 'n', ['int', base + j + 1]], ['relate', y, x, rel, ph]]
+        ints = []
+        for target in (base + 3, base + 2, base + 9):
+            rv, iv = self.fresh(to.lower()), self.fresh('i')
+            where = r.choice([['bin', '==', ['attr', ['selected'], 'n'], ['int', target]],
+                              ['bin', '>=', ['attr', ['selected'], 'n'], ['int', target]]])
+            out += [['select_rel', r.choice(['any', 'any', 'one']), rv, ['var', x], [[to, rel, ph]], where],
+                    ['assign', iv, ['int', -1]],
+                    ['if', ['un', 'not_empty', ['var', rv]], [['assign', iv, ['attr', ['var', rv], 'n']]], [], None]]
+            self.declare(rv, V('inst', to, ne=False))
+            ints.append(iv)
+        self.declare(x, V('inst', frm, ne=True))
+        for y in ys:
+            self.declare(y, V('inst', to, ne=True))
+        for n in ints:
             self.declare(n, V('integer'))
         return out
 
